@@ -114,6 +114,11 @@ FIXED += [
   'a registry hostname with an over-long non-ASCII label was accepted and String() panicked in svchost.Hostname.ForDisplay'),
 ]
 
+FIXED += [
+ ("C02", "mtime-changed", "fix: a directory re-included by a negated ignore rule keeps its own entry",
+  'with the default rules the contents of .terraform/modules were packed but the directory entry itself was dropped, so after Unpack the directory had mode 0755 and the time of the unpacking instead of its own'),
+]
+
 OPEN = [
  ("C04", "dotdot-after-symlink-component",
   'a link whose target applies ".." after a component that is itself a symlink in dst (e.g. "d/l -> .." together with "m -> d/l/../secret", in either order) is accepted because targets are validated lexically; the operating system resolves m to a location outside dst. No entry can be written through such a link any more (see the fixed C01 entries), but the link itself remains'),
